@@ -44,6 +44,11 @@ def _probe(src, info):
         a = src.pick(keyed)
         s = grammar.SINGULAR[a]
         k = {"_inplace": src.chance(2, 3)}
+        if info.attrs()[a]["type"][0] == "keyedlist" and src.chance(1, 3):
+            # a NEW element, positioned by the KEY of an element that is there: fine as a replacement, refused as an insertion
+            # (a key is no position to insert before) - after the new element's key has been looked at
+            k.update(_index=["$key", a, src.choice(3)], _insert=src.chance(3, 4))
+            return {"t": "call", "m": f"with_{s}", "a": [["spec", "N", {"k": src.pick(["zz", "c", "new"]), "v": 1}]], "k": k}
         if info.attrs()[a]["type"][0] == "dict":
             return {"t": "call", "m": f"with_{s}", "a": [src.pick(grammar.KEYS), ["$item", a, src.choice(3)]], "k": k}
         if src.chance(2, 3):
@@ -51,6 +56,12 @@ def _probe(src, info):
             if src.chance(1, 3):
                 k["_insert"] = True
         return {"t": "call", "m": f"with_{s}", "a": [["$item", a, src.choice(3)]], "k": k}
+    invalidators = sorted({i for a in info.attrs().values() for i in (a.get("invalidated_by") or ()) if i in info.attrs()})
+    if invalidators and src.chance(1, 10):
+        # the attribute is assigned the very object it already holds: nothing changes - unless restoring one of its dependants
+        # fails, in which case the dependants restored before it must come back, too
+        a = src.pick(invalidators)
+        return {"t": "set", "attr": a, "v": ["$same", a]} if src.chance(1, 2) else {"t": "call", "m": f"with_{a}", "a": [["$same", a]], "k": {"_inplace": True}}
     lookups = [(n, item) for item in (False, True) for n in info.attrs() if info.prepare_kind(n, item=item) == "lookup"]
     if lookups and src.chance(1, 3):
         # a shorthand that the preparer resolves to an object the instance already holds, together with nested keywords the
